@@ -188,6 +188,7 @@ pub fn tiny_scope(rep: &Report, aad: &[u8], label: &str) {
 pub fn run(rep: &Report) {
     let seed = rep.seed;
     rep.set_rule("E-ENV: every tape of Read/Write answers within the stated budgets is executed on the real code; read partitions in tiny scope are exhaustive (every composition of L into parts <= cs). A case is one complete execution; distinct non-trivial = distinct ciphertext streams (i.e. distinct (keys, length, chunking)) that were produced by the real encryptor and decrypted again by the real decryptor");
+    rep.rule_add("CLI round trips over {FILE arguments, stdin/stdout pipes, named pipes as FILE arguments} x {fresh, pre-existing longer output files}.");
     rep.assume("key and plaintext byte values come from seed-derived alphabets (4 identities, formula plaintexts)");
     rep.assume("lengths beyond 3*cs+1 rest on the loop state being independent of the chunk index (the nonce/counter dimension is swept in C06/C19)");
     tiny_scope(rep, &[], "C01");
